@@ -2918,6 +2918,38 @@ fn gen_c03(ctx: &Ctx, rng: &mut Rng, i: u64) -> Trace {
             }
         }
     }
+    // the same in-radius damage around ANOTHER codeword vector: the complete difference to it goes in front. The word
+    // the decoder sees is then far from what was sent; the reference model establishes the premise (exec.rs) and the
+    // oracle demands the other vector, and the message IT encodes from the whole-symbol path.
+    if rng.chance(1, 8) {
+        let mut delta = vec![0u8; s.n_data];
+        let blocks: Vec<usize> = if rng.chance(1, 2) { vec![rng.below(s.blocks)] } else { (0..s.blocks).collect() };
+        let mode = rng.below(3);
+        for b in blocks {
+            let nd = s.block_data_len(b);
+            if nd == 0 {
+                continue;
+            }
+            let w = match mode {
+                0 => 1,
+                1 => rng.range(1, 3.min(nd)),
+                _ => nd,
+            };
+            for i in rng.sample_distinct(nd, w) {
+                delta[b + i * s.blocks] = if mode == 2 { rng.below(256) as u8 } else { rng.nonzero_byte() };
+            }
+        }
+        if let Some(ec) = real_ec(s, &delta) {
+            let mut front: Vec<Fault> = Vec::new();
+            for (p, m) in delta.iter().chain(ec.iter()).enumerate() {
+                if *m != 0 {
+                    front.push(Fault::new("cw_other", Op::CwXor { pos: p as u32, mask: *m }));
+                }
+            }
+            front.extend(faults);
+            faults = front;
+        }
+    }
     Trace { prop: "C03".into(), producer, faults }
 }
 
